@@ -313,8 +313,8 @@ class CoordPayload():
 
         return self
 
-    def __div__(self, other):
-        """__div__"""
+    def __truediv__(self, other):
+        """__truediv__"""
 
         if isinstance(other, CoordPayload):
             ans = self.payload / other.payload
@@ -323,13 +323,13 @@ class CoordPayload():
 
         return ans
 
-    def __rdiv__(self, other):
-        """__rdiv__"""
+    def __rtruediv__(self, other):
+        """__rtruediv__"""
 
         return other / self.payload
 
-    def __idiv__(self, other):
-        """__idiv__"""
+    def __itruediv__(self, other):
+        """__itruediv__"""
 
         if isinstance(other, CoordPayload):
             self.payload /= other.payload
